@@ -132,4 +132,12 @@ theorem C07_source_skeletons :
     Gen.Skel.DB_TruncateDatabase = Expected.Skel.DB_TruncateDatabase :=
   rfl
 
+/-- further regenerated control skeletons (see Model/ExpectedSkel.lean): DB_TruncateWAL, DB_RemoveWAL, DB_CreateJournal, DB_WriteJournalAt -/
+theorem C07_source_skeletons_2 :
+    Gen.Skel.DB_TruncateWAL = Expected.Skel.DB_TruncateWAL ∧
+    Gen.Skel.DB_RemoveWAL = Expected.Skel.DB_RemoveWAL ∧
+    Gen.Skel.DB_CreateJournal = Expected.Skel.DB_CreateJournal ∧
+    Gen.Skel.DB_WriteJournalAt = Expected.Skel.DB_WriteJournalAt :=
+  ⟨rfl, rfl, rfl, rfl⟩
+
 end LiteFSVerif.C07
